@@ -286,6 +286,18 @@ def run_case(case):
         if out2.shape != out.shape or not np.array_equal(out2, out):
             return violated(sig, "the same convolution gives another result after rejected "
                             "calls in between", wit, mech="history-after-failure")
+    if not multi and list(dshape) == list(fshape) and mode == "full":
+        # the same array object as data and as filter (auto-convolution)
+        try:
+            ac = sp.convolve(dc, dc, **kw)
+        except Exception as e:
+            return violated(sig, "auto-convolution (same array as data and filter) raised %s"
+                            % type(e).__name__, wit, mech="same-object")
+        rc = O.convolve(dc, dc.copy(), mode, strides, multi)
+        checks += 1
+        if ac.shape != rc.shape or nrm(ac - rc) > 1e-10 * (nrm(rc) + 1e-300):
+            return violated(sig, "convolve(x, x) with the same array object differs from the "
+                            "definition", wit, mech="same-object")
     nontrivial = int(np.prod(n)) > 1 or multi
     r = held(sig, obs, checks, nontrivial)
     r["tags"] = ["computed:" + mode + ":" + relcls]
